@@ -512,7 +512,11 @@ class Tally(StatisticsInterface):
         if math.isnan(mean) or math.isnan(self.stdev(False)):
             return (math.nan, math.nan)
         level = 1.0 - alpha / 2.0
-        z = NormalDist(0.0, 1.0).inv_cdf(level)
+        if level < 1.0:
+            z = NormalDist(0.0, 1.0).inv_cdf(level)
+        else:
+            # alpha == 0: 100% confidence, the interval is only bounded by min / max
+            z = math.inf
         confidence = z * math.sqrt(self.variance(False) / self._n)
         return (max(self._min, mean - confidence),
                 min(self._max, mean + confidence))
